@@ -21,6 +21,10 @@ pub enum Case {
     Build { matrix: String, system_csv: String, user_csv: Option<String>, probes: Vec<String>, mutated: bool },
     /// compile a valid dictionary into a sink that fails at every byte offset in turn
     Sink { dic: DicModel, short_write: bool },
+    /// the Python entry points of the compiler (build_system_dic / build_user_dic) on the same texts: same verdict and
+    /// same bytes as the library, and with the output file limited to N bytes (limits: 16-bit fractions of the file
+    /// size, negative = distance from its end) never a normal return
+    PyBuild { matrix: String, system_csv: String, user_csv: Option<String>, limits: Vec<i32> },
 }
 
 pub struct C06;
@@ -571,6 +575,135 @@ impl Property for C06 {
                     }
                 }
             }
+            Case::PyBuild { matrix, system_csv, user_csv, limits } => {
+                let long_key = |csv: &str| csv.lines().any(|l| l.split(',').next().map(|k| k.len() > 16_000).unwrap_or(false));
+                if !ctx.strict && (long_key(system_csv) || user_csv.as_deref().map(long_key).unwrap_or(false)) {
+                    rep.excluded = Some("F27");
+                    return rep;
+                }
+                let root = verif_root();
+                let lib = root.join("work").join("pylib");
+                if !lib.join("sudachipy").join("sudachipy.so").exists() {
+                    rep.fail("harness-python", "work/pylib/sudachipy/sudachipy.so is missing (./check builds it)".to_string());
+                    return rep;
+                }
+                let sys = match compile_system(matrix, system_csv) {
+                    Err(_) => {
+                        rep.class("python-build: the library panics on this input (judged by the Build family)");
+                        return rep;
+                    }
+                    Ok(r) => r,
+                };
+                std::fs::create_dir_all(&ctx.dir).ok();
+                let dir = ctx.dir.join("pybuild");
+                let _ = std::fs::remove_dir_all(&dir);
+                let input = json!({"matrix": matrix, "csv": system_csv, "user_csv": user_csv, "limits": limits, "dir": dir});
+                let mut cmd = std::process::Command::new("python3-vt");
+                cmd.arg(root.join("py").join("c06_build.py")).arg(&lib).stdin(std::process::Stdio::piped()).stdout(std::process::Stdio::piped()).stderr(std::process::Stdio::null());
+                let out = cmd.spawn().and_then(|mut ch| {
+                    ch.stdin.take().unwrap().write_all(input.to_string().as_bytes())?;
+                    ch.wait_with_output()
+                });
+                let out = match out {
+                    Ok(o) => o,
+                    Err(e) => {
+                        rep.fail("harness-python", format!("cannot run python3-vt: {}", e));
+                        return rep;
+                    }
+                };
+                let res: Value = match serde_json::from_slice(&out.stdout) {
+                    Ok(v) => v,
+                    Err(_) => {
+                        rep.fail("python-build-crash", format!("the interpreter running build_system_dic / build_user_dic ended with {:?} without a result", out.status));
+                        return rep;
+                    }
+                };
+                let same = |a: &[u8], b: &[u8]| a.len() == b.len() && a.len() >= 272 && a[..8] == b[..8] && a[272..] == b[272..];
+                // (a) same verdict, same bytes (the header carries the time of the build and the description)
+                let py_sys = res["system"]["size"].as_u64();
+                if res["system"]["outcome"] == "panicked" {
+                    rep.fail("python-build-panics", format!("build_system_dic: {}", res["system"]["error"]));
+                    return rep;
+                }
+                match (&sys, py_sys) {
+                    (Ok(b), Some(_)) => {
+                        let got = std::fs::read(dir.join("system.dic")).unwrap_or_default();
+                        if !same(&got, b) {
+                            rep.fail("python-build-differs", format!("build_system_dic wrote {} bytes that differ from the {} bytes DictBuilder::compile writes for the same texts", got.len(), b.len()));
+                            return rep;
+                        }
+                        rep.class("python-build: system dictionary identical to the library's");
+                    }
+                    (Err(_), None) => {
+                        rep.class("python-build: both refuse");
+                    }
+                    (Ok(_), None) => {
+                        rep.fail("python-build-raises", format!("build_system_dic raised {} for texts the library compiles", res["system"]["error"]));
+                        return rep;
+                    }
+                    (Err(e), Some(_)) => {
+                        rep.fail("python-build-succeeds", format!("build_system_dic succeeded for texts the library refuses with {}", e));
+                        return rep;
+                    }
+                }
+                if let (Ok(b), Some(u), Some(pu)) = (&sys, user_csv, res.get("user").filter(|u| !u.is_null())) {
+                    if pu["outcome"] == "panicked" {
+                        rep.fail("python-build-panics", format!("build_user_dic: {}", pu["error"]));
+                        return rep;
+                    }
+                    match (compile_user(b, u), pu["size"].as_u64()) {
+                        (Ok(Ok(ub)), Some(_)) => {
+                            let got = std::fs::read(dir.join("user.dic")).unwrap_or_default();
+                            if !same(&got, &ub) {
+                                rep.fail("python-build-differs", format!("build_user_dic wrote {} bytes that differ from the {} bytes of the library", got.len(), ub.len()));
+                                return rep;
+                            }
+                            rep.class("python-build: user dictionary identical to the library's");
+                        }
+                        (Ok(Err(_)), None) => rep.class("python-build: both refuse the user dictionary"),
+                        (Ok(Ok(_)), None) => {
+                            rep.fail("python-build-raises", format!("build_user_dic raised {} for texts the library compiles", pu["error"]));
+                            return rep;
+                        }
+                        (Ok(Err(e)), Some(_)) => {
+                            rep.fail("python-build-succeeds", format!("build_user_dic succeeded for texts the library refuses with {}", e));
+                            return rep;
+                        }
+                        (Err(_), _) => {}
+                    }
+                }
+                // (b) the output file may not grow beyond N bytes: never a normal return
+                for r in res["runs"].as_array().cloned().unwrap_or_default() {
+                    let (limit, total, size) = (r["limit"].as_u64().unwrap_or(0), r["total"].as_u64().unwrap_or(0), r["file_size"].as_i64().unwrap_or(-1));
+                    let which = r["which"].as_str().unwrap_or("?").to_string();
+                    match r["outcome"].as_str().unwrap_or("?") {
+                        "panicked" => {
+                            rep.fail("python-build-panics", format!("build_{}_dic with the output limited to {} of {} bytes: {}", which, limit, total, r["message"]));
+                            return rep;
+                        }
+                        "returned" if limit < total => {
+                            rep.fail("sink-failure-reported-as-success", format!("build_{}_dic returned normally although the output file could only take {} of its {} bytes (file on disk: {} bytes)", which, limit, total, size));
+                            return rep;
+                        }
+                        "returned" => {
+                            if size as u64 != total {
+                                rep.fail("python-build-differs", format!("build_{}_dic with room for {} bytes left a file of {} bytes, a complete one has {}", which, limit, size, total));
+                                return rep;
+                            }
+                            rep.class("python-build: limit not reached, complete file");
+                        }
+                        _ if limit >= total => {
+                            rep.fail("python-build-raises", format!("build_{}_dic raised {} although the output file had room for all {} bytes", which, r["message"], total));
+                            return rep;
+                        }
+                        _ => {
+                            rep.nontrivial = true;
+                            rep.class(if total - limit <= 8192 { "python-build: output refused within the last 8 KiB, error raised" } else { "python-build: output refused earlier, error raised" });
+                        }
+                    }
+                }
+                let _ = std::fs::remove_dir_all(&dir);
+            }
             Case::Sink { dic, short_write } => {
                 let matrix = dic.matrix.render();
                 let csv = render_csv(&dic.system);
@@ -628,7 +761,7 @@ impl Property for C06 {
         }
         rep
     }
-    fn extra(&self, tier: Tier, _seed: u64, ctx: &mut Ctx, stats: &mut Stats) -> Vec<(Value, Failure)> {
+    fn extra(&self, tier: Tier, seed: u64, ctx: &mut Ctx, stats: &mut Stats) -> Vec<(Value, Failure)> {
         // sizes on the limits of the binary format that no random draw reaches: the number of
         // distinct parts of speech (16-bit count, limit 32,767), homographs of one key (127 ids),
         // matrices with more than 32,767 / 65,535 cells whose last cells carry costs
@@ -666,7 +799,26 @@ impl Property for C06 {
             );
             fam.push((format!("{} x {} matrix", nl, nr), Case::Build { matrix: m, system_csv: csv, user_csv: None, probes: vec!["abc".into(), "aacb".into()], mutated: true }));
         }
-        run_family(self, ctx, stats, "size-family", fam)
+        let mut fails = run_family(self, ctx, stats, "size-family", fam);
+        // the Python entry points of the compiler: generated (and mutated) texts x output limits
+        let mut pp = DicParams::small();
+        pp.max_base = 8;
+        pp.max_users = 1;
+        pp.escapes = true;
+        pp.big_matrix = true;
+        let lim = prop_oneof![3 => 0i32..65536, 1 => Just(0i32), 1 => Just(65536i32), 2 => -300i32..0, 1 => Just(-1i32), 1 => -9000i32..-8000];
+        let st = (dic_model(pp), prop_oneof![2 => Just(vec![]), 1 => vec(mutation(), 1..=2)], any::<bool>(), vec(lim, 2..6))
+            .prop_map(|(dic, muts, target_user, limits)| {
+                let (matrix, system_csv, user_csv) = apply_mutations(&dic, &muts, target_user);
+                Case::PyBuild { matrix, system_csv, user_csv, limits }
+            })
+            .boxed();
+        let n = tier.pick(160, 3200);
+        let fam: Vec<(String, Case)> = sample_strategy(&st, seed ^ 0xC06, n).into_iter().enumerate().map(|(i, c)| (format!("case {}", i), c)).collect();
+        // one report per clause (a defect here fails most cases at once)
+        let mut seen = std::collections::HashSet::new();
+        fails.extend(run_family(self, ctx, stats, "python-build", fam).into_iter().filter(|(_, f)| seen.insert(f.clause.clone())));
+        fails
     }
     fn sample(&self, case: &Case) -> Value {
         match case {
@@ -677,6 +829,13 @@ impl Property for C06 {
                 "mutated": mutated,
             }),
             Case::Sink { dic, short_write } => json!({"sink_sweep_over": render_csv(&dic.system), "short_write": short_write}),
+            Case::PyBuild { matrix, system_csv, user_csv, limits } => json!({
+                "python_build": true,
+                "matrix": crate::driver::truncate(matrix, 300),
+                "system_csv": crate::driver::truncate(system_csv, 1200),
+                "user_csv": user_csv.as_ref().map(|u| crate::driver::truncate(u, 600)),
+                "output_limits": limits,
+            }),
         }
     }
 }
